@@ -11,7 +11,33 @@
 #include "array.h"
 #include "queue.h"
 
+#include "types.h"
+
 static MPT_STRUCT(message) msg;   /* the cursor */
+
+/* link-time seam (-Wl,--wrap): mpt_array_append / mpt_array_slice as called from inside
+ * the library fail like an allocation failure (NULL, array untouched) once `array_calls_left`
+ * calls have succeeded; < 0: never */
+static long array_calls_left = -1;
+extern void *__real_mpt_array_append(MPT_STRUCT(array) *, size_t, const void *);
+extern void *__real_mpt_array_slice(MPT_STRUCT(array) *, size_t, size_t);
+void *__wrap_mpt_array_append(MPT_STRUCT(array) *a, size_t len, const void *base)
+{
+	if (array_calls_left >= 0) {
+		if (!array_calls_left) { errno = ENOMEM; return 0; }
+		--array_calls_left;
+	}
+	return __real_mpt_array_append(a, len, base);
+}
+void *__wrap_mpt_array_slice(MPT_STRUCT(array) *a, size_t off, size_t len)
+{
+	if (array_calls_left >= 0) {
+		if (!array_calls_left) { errno = ENOMEM; return 0; }
+		--array_calls_left;
+	}
+	return __real_mpt_array_slice(a, off, len);
+}
+static long parse_lim(const char *s) { return (!strcmp(s, "N")) ? -1 : (!strcmp(s, "t")) ? -2 : atol(s); }
 static int noparts;               /* message without any part (ndat = 0 for the iovec functions) */
 
 /* exact-size block holding the bytes of a hex token ("-" or "" = empty) */
@@ -41,6 +67,7 @@ static void set_frags(const char *s)
 	struct iovec *v;
 	size_t n = 0, i;
 	const char *p;
+	char s0 = s[0];
 	memset(&msg, 0, sizeof(msg));
 	noparts = 0;
 	if (!strcmp(s, "n")) { noparts = 1; return; }
@@ -56,8 +83,8 @@ static void set_frags(const char *s)
 	msg.base = v[0].iov_base;
 	msg.used = v[0].iov_len;
 	msg.clen = n - 1;
-	/* continuation array in its own exact-size block */
-	msg.cont = malloc(msg.clen * sizeof(*v));
+	/* continuation array in its own exact-size block; "F...": no continuation array at all for a single part */
+	msg.cont = (s0 == 'F' && !msg.clen) ? 0 : malloc(msg.clen * sizeof(*v));
 	if (msg.clen) memcpy(msg.cont, v + 1, msg.clen * sizeof(*v));
 	free(v);
 }
@@ -94,6 +121,11 @@ static void pos_tok(ssize_t r)
 static int f_space(int c, void *p) { (void) p; return isspace(c); }
 static int f_nspace(int c, void *p) { (void) p; return !isspace(c); }
 static int f_graph(int c, void *p) { (void) p; return isgraph(c); }
+static void arr_tok(int r, const MPT_STRUCT(array) *a)
+{
+	if (r >= 0) vh_tok("D:%d:", r); else vh_tok("D:E%d:", -r);
+	if (a->_buf) hexz(a->_buf + 1, a->_buf->_used);
+}
 
 static void run_case(int ntok, char **tok)
 {
@@ -207,7 +239,96 @@ static void run_case(int ntok, char **tok)
 			if (a._buf) hexz(a._buf + 1, a._buf->_used);
 			mpt_array_clone(&a, 0);
 		}
-		else { vh_tok("?%s", op); break; }
+		else if (!strcmp(op, "appl")) {
+		/* append to an array that refuses: "t" = typed buffer (the real refusal of mpt_array_append),
+		 * <k> = the (k+1)-th append made by mpt_message_append fails, "N" = none fails */
+		MPT_STRUCT(array) a = MPT_ARRAY_INIT;
+		size_t pl; void *pre = blk(tok[t], strlen(tok[t]), &pl);
+		long lim = parse_lim(tok[t + 1]);
+		int r;
+		t += 2;
+		if (pl) mpt_array_append(&a, pl, pre);
+		if (lim == -2) {
+			if (!a._buf) { mpt_array_slice(&a, 0, 4); a._buf->_used = 0; }
+			a._buf->_content_traits = mpt_type_traits('c');
+		}
+		array_calls_left = lim < 0 ? -1 : lim;
+		r = mpt_message_append(&a, &msg);
+		array_calls_left = -1;
+		arr_tok(r, &a);
+		mpt_array_clone(&a, 0);
+		free(pre);
+	}
+	else if (!strcmp(op, "amsgl") || !strcmp(op, "amsgle")) {
+		/* argument array while the (k+1)-th array call (reservation, arguments, separators) fails;
+		 * the caller's array holds 5a5a before (amsgl) or has no buffer yet (amsgle) */
+		MPT_STRUCT(array) a = MPT_ARRAY_INIT;
+		int sep = vh_int(tok[t++]);
+		long lim = parse_lim(tok[t++]);
+		int r;
+		/* (typed like a result of an earlier mpt_array_message: mpt_array_clone refuses to replace a raw buffer by
+		 * the typed result, and mpt_array_message does not look at that - independent of fragmentation, not C17's subject) */
+		if (!op[5]) {
+			mpt_array_append(&a, 2, "ZZ");
+			a._buf->_content_traits = mpt_type_traits('c');
+		}
+		array_calls_left = lim < 0 ? -1 : lim;
+		r = mpt_array_message(&a, &msg, sep);
+		array_calls_left = -1;
+		arr_tok(r, &a);
+		mpt_array_clone(&a, 0);
+	}
+	else if (!strcmp(op, "amsgn")) {
+		MPT_STRUCT(array) a = MPT_ARRAY_INIT;
+		int r;
+		mpt_array_append(&a, 2, "ZZ");
+		r = mpt_array_message(&a, 0, 32);
+		arr_tok(r, &a);
+		mpt_array_clone(&a, 0);
+	}
+	else if (!strcmp(op, "null")) {
+		/* missing data / function / match arguments */
+		size_t n; struct iovec *v = as_vec(&n);
+		int k = vh_int(tok[t++]);
+		ssize_t r =
+		    k == 0 ? mpt_memfcn(0, n, f_space, 0) : k == 1 ? mpt_memfcn(v, n, 0, 0)
+		  : k == 2 ? mpt_memrfcn(0, n, f_space, 0) : k == 3 ? mpt_memrfcn(v, n, 0, 0)
+		  : k == 4 ? mpt_memstr(v, n, 0, 1) : k == 5 ? mpt_memrstr(v, n, 0, 1)
+		  : k == 6 ? mpt_memtok(0, n, " ", 0, 0)
+		  : k == 7 ? mpt_memstr(0, n, "A", 1) : k == 8 ? mpt_memrstr(0, n, "A", 1)
+		  : k == 9 ? mpt_memstr(0, n, 0, 0) : mpt_memrstr(0, n, 0, 0);
+		pos_tok(r);
+		free(v);
+	}
+	else if (!strcmp(op, "rbig")) {
+		/* backward search over  <a part of `big` bytes that is never looked at> + the message:
+		 * made only when the byte is found in the message itself (checked here without the library) */
+		size_t n, i, j, sl = 0; struct iovec *v = as_vec(&n), *w;
+		const char *kind = tok[t++], *arg = tok[t++];
+		size_t big = strtoull(tok[t++], 0, 10);
+		uint8_t *set = 0;
+		int hit = 0, a = 0;
+		if (kind[0] == 's') set = blk(arg, strlen(arg), &sl); else a = atoi(arg);
+		for (i = 0; i < n && !hit; i++) for (j = 0; j < v[i].iov_len && !hit; j++) {
+			int c = ((uint8_t *) v[i].iov_base)[j];
+			hit = kind[0] == 'c' ? c == a
+			    : kind[0] == 'f' ? (a == 0 ? !!isspace(c) : a == 1 ? !isspace(c) : !!isgraph(c))
+			    : (sl && memchr(set, c, sl));
+		}
+		if (!hit) vh_tok("P:skip");
+		else {
+			w = malloc((n + 1) * sizeof(*w));
+			w[0].iov_base = malloc(1);
+			w[0].iov_len = big;
+			memcpy(w + 1, v, n * sizeof(*v));
+			pos_tok(kind[0] == 'c' ? mpt_memrchr(w, n + 1, a)
+			      : kind[0] == 'f' ? mpt_memrfcn(w, n + 1, a == 0 ? f_space : a == 1 ? f_nspace : f_graph, 0)
+			      : mpt_memrstr(w, n + 1, set, sl));
+			free(w[0].iov_base); free(w);
+		}
+		free(set); free(v);
+	}
+	else { vh_tok("?%s", op); break; }
 		dump_state();
 	}
 }
